@@ -128,7 +128,7 @@ class Prepared:
         }
 
 
-def run_view(P, nodes=None, regions=None, fmt=None):
+def run_view(P, nodes=None, regions=None, fmt=None, trigger_s=1.0, budget=300_000):
     from gaftools.cli import view
 
     outp = os.path.join(P.scratch, "view.out")
@@ -137,7 +137,7 @@ def run_view(P, nodes=None, regions=None, fmt=None):
     kw = dict(gaf_path=P.gaf_path, output=outp, nodes=list(nodes or []), regions=list(regions or []), format=fmt)
     if fmt:
         kw["gfa"] = P.gfa_path
-    out = fw.guarded(view.run, _trigger_s=1.0, _budget=300_000, **kw)
+    out = fw.guarded(view.run, _trigger_s=trigger_s, _budget=budget, **kw)
     lines = []
     if os.path.exists(outp):
         lines = open(outp).read().split("\n")
@@ -266,7 +266,9 @@ def many_records(res, scratch, n):
             res.fail("C04/index-failed", f"index failed on a file of {n} records: {P.index_out.brief()}", {"many": n})
             continue
         for fmt in (None, P.fmt):
-            out, lines = run_view(P, nodes=["s1"], fmt=fmt)
+            # thousands of records legitimately cost more than the small-file budget: on a loaded machine the 1 s trigger fired and
+            # the traced repeat then ran out of 300 000 line events (a false "does not terminate"), so this part has its own budget
+            out, lines = run_view(P, nodes=["s1"], fmt=fmt, trigger_s=60.0, budget=fw.LINE_BUDGET)
             res.evaluations += 1
             res.nt(fw.h64(["many", n, stable, fmt]))
             res.count("queries_selecting_thousands_of_records")
